@@ -40,6 +40,7 @@ type PropSpec struct {
 
 type knownFinding struct {
 	Property, Clause, Harness string
+	Params                    string // "" = any; otherwise the job parameters, comma separated
 	Pattern                   *regexp.Regexp
 	What                      string
 	Raw                       string
@@ -96,6 +97,8 @@ func loadKnown(verifDir string) ([]knownFinding, []string) {
 				k.Clause = f[eq+1:]
 			case "harness":
 				k.Harness = f[eq+1:]
+			case "params":
+				k.Params = f[eq+1:]
 			}
 		}
 		if k.Property != "" && k.Clause != "" && k.Pattern != nil {
@@ -211,6 +214,15 @@ func runProperty(verifDir string, spec *PropSpec, tier string, seed int64, worke
 				if k.Harness != "" && k.Harness != v.Harness {
 					continue
 				}
+				if k.Params != "" {
+					ps := make([]string, len(v.Params))
+					for i, p := range v.Params {
+						ps[i] = strconv.FormatInt(p, 10)
+					}
+					if strings.Join(ps, ",") != k.Params {
+						continue
+					}
+				}
 				if k.Pattern.MatchString(s) {
 					return k.Raw
 				}
@@ -300,7 +312,7 @@ func runProperty(verifDir string, spec *PropSpec, tier string, seed int64, worke
 	exit := 0
 	var violLines []string
 	if len(newViol) > 0 && engineTrouble == "" {
-		os.MkdirAll(filepath.Join(verifDir, "replays", spec.ID), 0o755)
+		os.MkdirAll(filepath.Join(verifDir, outDir("replays"), spec.ID), 0o755)
 		byPkgV := map[string][]*symgo.Violation{}
 		for _, v := range newViol {
 			byPkgV[spec.Jobs0(v.Harness)] = append(byPkgV[spec.Jobs0(v.Harness)], v)
@@ -329,7 +341,7 @@ func runProperty(verifDir string, spec *PropSpec, tier string, seed int64, worke
 					repro = true // engine-level observation (e.g. write into frozen state); no native counterpart
 				}
 				name := fmt.Sprintf("%s-%s-%x.json", v.Harness, sanitize(v.Clause), hashBytes(v.Bytes(), v.Model))
-				path := filepath.Join(verifDir, "replays", spec.ID, name)
+				path := filepath.Join(verifDir, outDir("replays"), spec.ID, name)
 				rb, _ := json.MarshalIndent(map[string]any{"property": spec.ID, "harness": v.Harness, "params": v.Params, "pkg": pkg,
 					"model": v.Model, "widths": v.Widths, "input_bytes": latin1(v.Bytes()), "clause": v.Clause, "kind": v.Kind, "detail": v.Detail,
 					"native": r, "reproduced_natively": repro}, "", " ")
@@ -402,9 +414,9 @@ func runProperty(verifDir string, spec *PropSpec, tier string, seed int64, worke
 		"property_id": spec.ID, "tier": tier, "seed": seed, "level": spec.Level, "coverage": cov,
 		"assumptions": spec.Assumptions, "wall_s": time.Since(t0).Seconds(), "violations": len(violLines),
 	}
-	os.MkdirAll(filepath.Join(verifDir, "evidence"), 0o755)
+	os.MkdirAll(filepath.Join(verifDir, outDir("evidence")), 0o755)
 	eb, _ := json.MarshalIndent(ev, "", " ")
-	os.WriteFile(filepath.Join(verifDir, "evidence", spec.ID+".json"), eb, 0o644)
+	os.WriteFile(filepath.Join(verifDir, outDir("evidence"), spec.ID+".json"), eb, 0o644)
 	fmt.Printf("%s tier=%s paths=%d queries=%d solver_queries=%d validated=%d exhaustive=%v violations=%d known=%d wall=%.1fs\n",
 		spec.ID, tier, totalPaths, totalQueries, totalSolverQ, validated, allExhausted, len(violLines), len(knownSeen), time.Since(t0).Seconds())
 	if exit == 0 && engineTrouble != "" {
@@ -412,6 +424,15 @@ func runProperty(verifDir string, spec *PropSpec, tier string, seed int64, worke
 		return 2
 	}
 	return exit
+}
+
+// outDir: evidence and replay files describe /repo; when VERIF_REPO points a
+// development run at a scratch tree they go to a scratch directory instead.
+func outDir(name string) string {
+	if repoDir != "/repo" {
+		return filepath.Join("logs", "scratch-"+filepath.Base(repoDir), name)
+	}
+	return name
 }
 
 // Jobs0 returns the package of the harness.
@@ -506,7 +527,12 @@ func cmdRun(args []string) {
 	id := args[0]
 	tier := os.Getenv("VERIF_TIER")
 	workers := 16
-	verif := "/verif"
+	if s := os.Getenv("VERIF_WORKERS"); s != "" {
+		if n, err := strconv.Atoi(s); err == nil && n > 0 {
+			workers = n
+		}
+	}
+	verif := defaultVerifDir
 	for i := 1; i < len(args); i++ {
 		switch args[i] {
 		case "--tier":
@@ -533,6 +559,6 @@ func cmdRun(args []string) {
 		os.Exit(2)
 	}
 	code := runProperty(verif, spec, tier, seed, workers)
-	os.RemoveAll(filepath.Join(verif, "work"))
+	os.Remove(filepath.Join(verif, "work")) // scratch sub-directories are removed by their users; drop the directory only if empty
 	os.Exit(code)
 }
